@@ -166,17 +166,29 @@ def wide_worker(task):
             continue
         n += 1
         bad, got = judge(prog, clock, 20)
+        M = len(prog) - 2
+        if M <= 6:
+            # the same program in a replication that ends exactly at the
+            # time of the cancelled event: the later events lie beyond the end
+            tgt = prog[M][0][1]
+            t_end = prog[-1][tgt][2]
+            n += 1
+            b2, _ = judge(prog, clock, t_end)
+            bad = bad + [(k_ + ":end-at-cancelled-event", "end %s: %s" % (
+                t_end, d_), t_end) for k_, d_ in b2]
         if sample is None and got is not None:
             sample = {"clock": clock, "wide_program":
                       progmc.prog_to_json(prog), "trace": got["trace"]}
-        for kind, detail in bad:
+        for item in bad:
+            kind, detail = item[:2]
+            end_used = item[2] if len(item) > 2 else 20
             sig = "C02:%s:wide:%s" % (clock, kind)
             cnt[sig] = cnt.get(sig, 0) + 1
             rank = len(prog)
             if sig not in best or rank < best[sig][3]:
                 best[sig] = (sig, "%s clock, wide program %s: %s %s" % (
                     clock, progmc.prog_to_json(prog), kind, detail),
-                    {"clock": clock, "end": 20,
+                    {"clock": clock, "end": end_used,
                      "program": progmc.prog_to_json(prog)}, rank)
     return dict(clock=clock, n=n, nontrivial=n, sample=sample, wide=True,
                 viols=[v + (cnt[v[0]],) for v in best.values()])
